@@ -65,6 +65,7 @@ from typing import IO, TYPE_CHECKING
 from .errors import ChecksumMismatch
 from .file import GitFile
 from .objects import (
+    S_ISGITLINK,
     Blob,
     Commit,
     ObjectID,
@@ -963,9 +964,12 @@ def build_reachability_bitmap(
                 queue.append(obj.tree)
                 queue.extend(obj.parents)
             elif isinstance(obj, Tree):
-                # Tree object - add all entries
+                # Tree object - add all entries, except submodule commits:
+                # they belong to another repository even when an object
+                # with that id happens to exist here
                 for item in obj.items():
-                    queue.append(item.sha)
+                    if not S_ISGITLINK(item.mode):
+                        queue.append(item.sha)
         except KeyError:
             # Object not in store, skip it
             continue
